@@ -287,7 +287,7 @@ static bool count_cb(srtp_stream_t st, void *d) { (void)st; ((struct count_data 
  * args: sid mki_index cap mode | pkt
  * mode 0 in place; 1 out-of-place dst zero filled; 2 dst 0xa5.. pattern; 3 dst = copy of input
  * out: status len outbytes src_unchanged guard_ok events ivs */
-static void op_packet(int kind)
+static void op_packet(int kind, int lineno)
 {
     srtp_t s = ses[(int)IA[0] % MAXSES];
     size_t mki_index = (size_t)IA[1];
@@ -328,7 +328,9 @@ static void op_packet(int kind)
     if (st == srtp_err_status_ok) {
         out_u(outlen);
         out_bytes(dst, outlen <= dstsz ? outlen : dstsz);
+        save_output(lineno, dst, outlen <= dstsz ? outlen : dstsz);
     } else {
+        save_output(lineno, NULL, 0);
         out_u(0);
         out_bytes(NULL, 0);
     }
@@ -364,7 +366,6 @@ static void dump_stream(srtp_stream_ctx_t *st)
 
 int api_op(const char *name, int lineno)
 {
-    (void)lineno;
     if (!strcmp(name, "policy")) { op_policy(); return 1; }
     if (!strcmp(name, "create")) {
         int sid = (int)IA[0] % MAXSES;
@@ -405,10 +406,10 @@ int api_op(const char *name, int lineno)
         else out_z(-2);
         return 1;
     }
-    if (!strcmp(name, "protect")) { op_packet(0); return 1; }
-    if (!strcmp(name, "unprotect")) { op_packet(1); return 1; }
-    if (!strcmp(name, "protect_rtcp")) { op_packet(2); return 1; }
-    if (!strcmp(name, "unprotect_rtcp")) { op_packet(3); return 1; }
+    if (!strcmp(name, "protect")) { op_packet(0, lineno); return 1; }
+    if (!strcmp(name, "unprotect")) { op_packet(1, lineno); return 1; }
+    if (!strcmp(name, "protect_rtcp")) { op_packet(2, lineno); return 1; }
+    if (!strcmp(name, "unprotect_rtcp")) { op_packet(3, lineno); return 1; }
     if (!strcmp(name, "setroc")) {
         srtp_t s = ses[(int)IA[0] % MAXSES];
         out_z(s ? (long long)srtp_stream_set_roc(s, (uint32_t)IA[1], (uint32_t)IA[2]) : -2);
